@@ -2,6 +2,7 @@
  *
  *   s.exe scan    <tables file> <input hex>     load, scan, print "rule:len ..." and the load/destroy/ledger status
  *   s.exe trunc   <tables file>                 for every length L < size (and a wrong magic): load from the first L bytes
+ *   s.exe afail   <tables file>                 the k-th allocation request during the load fails, for every k
  *   s.exe mutate  <tables file>                 for every offset x {low bit flipped, high bit flipped}: load (a --tables-verify
  *                                               scanner compares with its in-code tables); one forked child per variant
  * Every attempt prints one line; the fatal-error hook is caught with longjmp.
@@ -172,6 +173,32 @@ int main(int argc, char **argv)
 			vf_ledger_check_empty();
 			printf("%c %s|%s|%ld\n", res, vf_fatal_msg, vf_ledger_msg, vf_ledger_errors);
 		}
+		return 0;
+	}
+	if (!strcmp(argv[1], "afail")) {
+		/* the k-th allocation request made while loading fails, for every k: yytables_fload must fail (error return or the
+		 * fatal-error hook), use nothing of the failed request, and leave nothing allocated after yytables_destroy */
+		long n, kk;
+		int res;
+		vf_ledger_reset_counts(); vf_alloc_fail_at = 0;
+		res = vf_try_load(vf_file, vf_file_len);
+		n = vf_alloc_count;
+		vf_unload_and_check(); vf_ledger_check_empty();
+		printf("A 0 %c requests=%ld %s|%s|%ld\n", res, n, vf_fatal_msg, vf_ledger_msg, vf_ledger_errors);
+		vf_ledger_msg[0] = 0;
+		for (kk = 1; kk <= n; kk++) {
+			vf_ledger_reset_counts(); vf_alloc_fail_at = kk;
+			res = vf_try_load(vf_file, vf_file_len);
+			vf_alloc_fail_at = 0;
+			vf_unload_and_check(); vf_ledger_check_empty();
+			printf("A %ld %c %s|%s|%ld\n", kk, res, vf_fatal_msg, vf_ledger_msg, vf_ledger_errors);
+			vf_ledger_msg[0] = 0;
+		}
+		/* and afterwards the scanner still loads */
+		vf_ledger_reset_counts();
+		res = vf_try_load(vf_file, vf_file_len);
+		vf_unload_and_check(); vf_ledger_check_empty();
+		printf("A end %c %s|%s|%ld\n", res, vf_fatal_msg, vf_ledger_msg, vf_ledger_errors);
 		return 0;
 	}
 	if (!strcmp(argv[1], "mutate")) {
